@@ -1,9 +1,110 @@
-//! C01 (3) typed Rust carriers.
+//! C01 (3) typed Rust carriers: for every Rust type the driver implements the value traits for (alone
+//! and nested in the standard wrappers), values travel Rust -> bytes -> Rust unchanged and the bytes
+//! are what the reference decoder reads as the same value.
 use super::Ctx;
-use crate::runner::Report;
+use super::c17::tables;
+use crate::carriers::*;
+use crate::gen_values::{mval, value_features};
+use crate::runner::*;
+use crate::wire::prim::{Rd, WValue};
+use crate::wire::value::*;
+use crate::{vassert, vassert_eq};
+use proptest::prelude::*;
+use scylla_cql_core::serialize::row::SerializedValues;
+use serde::{Deserialize, Serialize};
 use serde_json::Value;
+use std::sync::OnceLock;
 
-pub fn run(_ctx: &Ctx, _rep: &mut Report) {}
-pub fn replay(_rep: &mut Report, _check: &str, _case: &Value) -> bool {
-    false
+#[derive(Debug, Clone, Serialize, Deserialize)]
+pub struct CarrierCase {
+    pub carrier: String,
+    pub column: MType,
+    pub value: MVal,
+}
+
+/// (carrier index, indexes of column types documented compatible in both directions)
+fn pools() -> &'static Vec<(usize, Vec<usize>)> {
+    static P: OnceLock<Vec<(usize, Vec<usize>)>> = OnceLock::new();
+    P.get_or_init(|| {
+        let tb = tables();
+        tb.carriers
+            .iter()
+            .enumerate()
+            .filter(|(_, c)| c.has_ser() && c.has_de())
+            .map(|(i, c)| (i, (0..tb.types.len()).filter(|k| c.ser_rel(&tb.types[*k]) == Rel::Accept && c.de_rel(&tb.types[*k]) == Rel::Accept).collect::<Vec<_>>()))
+            .filter(|(_, ts)| !ts.is_empty())
+            .collect()
+    })
+}
+
+pub fn oracle(c: &CarrierCase) -> Verdict {
+    let tb = tables();
+    let ci = *tb.by_name.get(&c.carrier).ok_or_else(|| bad("harness_env", format!("unknown carrier {}", c.carrier)))?;
+    let car = &tb.carriers[ci];
+    let t = &c.column;
+    let ct = column_type(t);
+    let mut sv = SerializedValues::new();
+    let Some((res, model)) = car.add_mval(&mut sv, t, &ct, &c.value) else {
+        return Ok(CaseInfo::new(false).class("value_not_representable_in_carrier"));
+    };
+    res.map_err(|e| bad("encode_rejected", format!("{} refused a value it can hold for {t:?}: {e}", c.carrier)))?;
+    vassert_eq!(sv.element_count(), 1, "bind_count", "{} into {t:?}", c.carrier);
+    let mut req = Vec::new();
+    sv.write_to_request(&mut req);
+    let mut rd = Rd::new(&req[2..]);
+    let wv = rd.value().map_err(|e| bad("cell_framing", format!("{} into {t:?}: not a [value]: {e:?} bytes={req:02x?}", c.carrier)))?;
+    vassert!(rd.is_empty(), "cell_framing", "{} into {t:?}: trailing bytes {req:02x?}", c.carrier);
+    let want = canon(t, &model);
+    let driver_cell: Option<Vec<u8>> = match (&wv, &model) {
+        (WValue::Null, MVal::Null) => None,
+        (WValue::Bytes(b), m) if !matches!(m, MVal::Null) => Some(b.clone()),
+        _ => return Err(bad("null_framing", format!("{} holding {model:?} framed as {wv:?}", c.carrier))),
+    };
+    if let Some(b) = &driver_cell {
+        let dec = ref_decode(t, Some(b)).map_err(|e| bad("nonconformant_bytes", format!("{} into {t:?}: bytes {b:02x?} are not a valid encoding: {e:?}", c.carrier)))?;
+        vassert_eq!(canon(t, &dec), want, "wrong_bytes", "{} into {t:?}: bytes {b:02x?} decode (by the reference) to a different value", c.carrier);
+    }
+    let ref_cell: Option<Vec<u8>> = if matches!(model, MVal::Null) { None } else { Some(ref_encode(t, &model).map_err(|e| bad("harness", format!("reference encoder rejected {model:?}: {e:?}")))?) };
+    for (label, cell) in [("driver_bytes", &driver_cell), ("reference_bytes", &ref_cell)] {
+        let got = car.decode(t, &ct, cell.as_deref()).map_err(|e| bad(&format!("decode_failed_{label}"), format!("{} cannot read {t:?} from {label} {cell:02x?}: {e}", c.carrier)))?;
+        vassert_eq!(canon(t, &got), want, format!("roundtrip_{label}"), "{} from {t:?}", c.carrier);
+    }
+    let mut feats = vec![];
+    value_features(t, &c.value, &mut feats);
+    feats.sort();
+    feats.dedup();
+    let depth = t.depth();
+    let mut info = CaseInfo::new(depth >= 2 || !feats.is_empty()).class(format!("depth{depth}"));
+    for f in feats {
+        info = info.class(f);
+    }
+    Ok(info.class_if(model != c.value, "carrier_normalises_value"))
+}
+
+pub fn case() -> BoxedStrategy<CarrierCase> {
+    (any::<u16>(), any::<u16>())
+        .prop_flat_map(|(c, k)| {
+            let tb = tables();
+            let pl = pools();
+            let (ci, ts) = &pl[pick_idx(c, pl.len())];
+            let ti = ts[pick_idx(k, ts.len())];
+            let t = tb.types[ti].clone();
+            let name = tb.carriers[*ci].name();
+            mval(&t).prop_map(move |value| CarrierCase { carrier: name.clone(), column: t.clone(), value })
+        })
+        .boxed()
+}
+
+pub fn run(ctx: &Ctx, rep: &mut Report) {
+    let n = pools().len();
+    rep.notes.push(format!("carriers: {n} Rust carrier types with at least one documented-compatible column type in the universe"));
+    run_prop_par(rep, "carriers", ctx.tier.pick(150_000, 4_000_000), ncpu(), case, oracle);
+}
+
+pub fn replay(rep: &mut Report, check: &str, case: &Value) -> bool {
+    if check != "carriers" {
+        return false;
+    }
+    replay_case::<CarrierCase, _>(rep, "carriers", case, oracle);
+    true
 }
